@@ -81,8 +81,13 @@ pub struct Exec {
     pub final_fault: Option<u16>,
     /// set when a fault interrupted the lazy queue: the run ends (world dropped) after this op
     pub abort_after_fault: bool,
+    /// the operation being checked is a restricted-storage join (event discrepancies concern C13 too)
+    pub restrict_op: bool,
     pub zst_dropped_seen: u64,
 }
+
+/// payload of the harness's own deliberate panic (cancellation of a caller between two calls)
+pub struct HarnessCancel;
 
 pub fn props(ps: &[&str]) -> Vec<String> {
     ps.iter().map(|s| s.to_string()).collect()
@@ -132,6 +137,7 @@ impl Exec {
             fault_sites: vec![],
             final_fault: None,
             abort_after_fault: false,
+            restrict_op: false,
             zst_dropped_seen: 0,
         };
         ex.prealloc()?;
@@ -321,6 +327,43 @@ impl Exec {
                 let hn = self.new_handle(H(op.uid, 0), e, true, comps)?;
                 for (i, &(s, p)) in comps.iter().enumerate() {
                     self.model_attach(s as usize, hn, (ids[i], zp(&self.model, s, p)));
+                }
+                self.model.hs[hn].pending_kill = true;
+                vec!["C05"]
+            }
+            OpKind::BuilderUnwound(comps) => {
+                let mut ent: Option<Entity> = None;
+                let mut ids: Vec<u64> = vec![];
+                {
+                    let world = self.world.as_mut().unwrap();
+                    let slots = self.slots.clone();
+                    let r = catch_unwind(AssertUnwindSafe(|| {
+                        let mut b = world.create_entity();
+                        ent = Some(b.entity);
+                        for &(s, p) in comps {
+                            let (nb, id) = slots[s as usize].with_now(b, p);
+                            b = nb;
+                            ids.push(id);
+                        }
+                        // the caller's code fails before `build()`: the builder is dropped by the
+                        // unwinding
+                        std::panic::panic_any(HarnessCancel);
+                        #[allow(unreachable_code)]
+                        drop(b);
+                    }));
+                    if let Err(e) = r {
+                        if !e.is::<HarnessCancel>() {
+                            std::panic::resume_unwind(e);
+                        }
+                    }
+                }
+                let Some(e) = ent else { return self.skip() };
+                self.stats.probe("builder_dropped_by_unwinding");
+                let hn = self.new_handle(H(op.uid, 0), e, true, comps)?;
+                for (i, &(s, p)) in comps.iter().enumerate() {
+                    if i < ids.len() {
+                        self.model_attach(s as usize, hn, (ids[i], zp(&self.model, s, p)));
+                    }
                 }
                 self.model.hs[hn].pending_kill = true;
                 vec!["C05"]
@@ -865,6 +908,30 @@ impl Exec {
                 .any(|m| m.values().any(|v| v.0 == id))
     }
 
+    /// A component sitting at an index that the real entities resource does not list (neither
+    /// alive nor awaiting maintain). Only the real world is consulted, never the model.
+    pub fn orphan_component(&self) -> Option<String> {
+        let w = self.world.as_ref()?;
+        let live: std::collections::BTreeSet<u32> = {
+            let ents = w.entities();
+            let v: std::collections::BTreeSet<u32> = (&ents).join().map(|e| e.id()).collect();
+            v
+        };
+        for s in 0..self.slots.len() {
+            for i in self.slots[s].mask(w) {
+                if !live.contains(&i) && i != crate::comps::HUGE_INDEX {
+                    return Some(format!(
+                        "slot {} ({}) still holds a component at index {}, which belongs to no entity the world reports as alive or awaiting maintain (not purged)",
+                        s,
+                        self.slots[s].kind().name(),
+                        i
+                    ));
+                }
+            }
+        }
+        None
+    }
+
     pub fn sample_handles(&self) -> Vec<usize> {
         let n = self.model.hs.len();
         if n <= 96 {
@@ -1077,7 +1144,7 @@ impl Exec {
             }
             if !match_events(&real, &exp) {
                 return Err(self.viol(
-                    &["C12"],
+                    if self.restrict_op { &["C12", "C13"] } else { &["C12"] },
                     "event-stream",
                     format!(
                         "slot {} ({}): events {:?}, expected {:?} (must=true are demanded, must=false are allowed)",
@@ -1290,7 +1357,7 @@ pub fn op_props(k: &OpKind) -> Vec<&'static str> {
         CreateNow(_) | CreateIterNow(_) | CreateIterDeferred(_) | CreateDeferred { .. } => {
             vec!["C01", "C02"]
         }
-        BuilderDropped(_) => vec!["C01", "C02"],
+        BuilderDropped(_) | BuilderUnwound(_) => vec!["C01", "C02"],
         DeleteNow(_) | DeleteBatch(_) | DeleteDeferred(_) | DeleteAll => vec!["C02", "C05"],
         Maintain => vec!["C09", "C02", "C05"],
         LazyInsert { .. } | LazyInsertAll { .. } | LazyRemove { .. } | LazyExec { .. } => {
